@@ -61,6 +61,10 @@ def sendTestReqR (env : Env) : R Unit := do
     R.modify fun c => { c with testReqId := some env.secs }
     sendMsgR env (Msg.mk' mTestRequest [(tTestReqID, pyStr env.secs)])
 
+/-- `except Exception: self.log.exception(…)` -/
+def swallowR {α} (dflt : α) (x : R α) : R α :=
+  R.tryCatch x fun ex => do R.liftM (M.emit (.caught ex)); pure dflt
+
 /-- `disconnect` -/
 def disconnectR (env : Env) (dstate : Nat) (logout : Option String) : R Unit := do
   let c ← R.get
@@ -68,7 +72,7 @@ def disconnectR (env : Env) (dstate : Nat) (logout : Option String) : R Unit := 
     R.assert (dstate ≤ st_DISCONNECTED_BROKEN_CONN)
     R.modify fun c => { c with testReqId := none, lastTime := 0, maxResend := 0 }
     match logout with
-    | some text => sendMsgR env (logoutMsg text)
+    | some text => swallowR () (sendMsgR env (logoutMsg text))
     | none => pure ()
     let c2 ← R.get
     if c2.sock then R.hook .closeSocket .waitClosed else pure ()
@@ -281,10 +285,6 @@ def processDispatchR (env : Env) (sr : Msg → Bool) (m : Msg) (valid : Bool) (n
   else do
     let c ← R.get
     if valid && n == c.sess.nextIn then R.hook (.deliver m) .onMessage else pure ()
-
-/-- `except Exception: self.log.exception(…)` -/
-def swallowR {α} (dflt : α) (x : R α) : R α :=
-  R.tryCatch x fun ex => do R.liftM (M.emit (.caught ex)); pure dflt
 
 /-- `_process_message` -/
 def processMessageR (env : Env) (sr : Msg → Bool) (m : Msg) : R Unit := do
